@@ -27,6 +27,9 @@ type timerTrial struct {
 	expected  int // deliveries allowed (0 or 1)
 	ok        bool
 	states    string
+	// a short timer lived longer than half its duration before it was stopped or replaced (the machine
+	// stalled): the stop was not "well before expiry", the trial says nothing about the property
+	inconclusive bool
 }
 
 func runTimerTrial(id int, seed int64, durMs int) *timerTrial {
@@ -42,6 +45,14 @@ func runTimerTrial(id int, seed int64, durMs int) *timerTrial {
 	nops := 1 + rnd.Intn(5)
 	armed := false
 	long := false // the timer armed last is a long one: it must not deliver within the observation window
+	var armedAt time.Time
+	armedDur := 0
+	// called after the operation that ended the current timer returned
+	ended := func() {
+		if armed && time.Since(armedAt) > time.Duration(armedDur)*time.Millisecond/2 {
+			tr.inconclusive = true
+		}
+	}
 	for i := 0; i < nops; i++ {
 		switch rnd.Intn(5) {
 		case 0, 1:
@@ -50,11 +61,14 @@ func runTimerTrial(id int, seed int64, durMs int) *timerTrial {
 			if long {
 				d = durMs * 200
 			}
+			t0 := time.Now()
 			conn.VerifArmTimer(uint(rnd.Intn(3)), d)
-			armed = true
+			ended()
+			armed, armedAt, armedDur = true, t0, d
 			tr.ops = append(tr.ops, fmt.Sprintf("arm(%d)", d))
 		case 2, 3:
 			conn.VerifStopTimer()
+			ended()
 			armed = false
 			tr.ops = append(tr.ops, "stop")
 		default:
@@ -89,6 +103,7 @@ func runTimerTrial(id int, seed int64, durMs int) *timerTrial {
 	if armed && long {
 		// the long timer is the current one and has not expired: stop it, nothing may be delivered afterwards either
 		conn.VerifStopTimer()
+		ended()
 		tr.ops = append(tr.ops, "stop")
 		time.Sleep(time.Duration(durMs)*time.Millisecond + 10*time.Millisecond)
 		obs = append(obs, r.take()...)
@@ -130,7 +145,9 @@ func timerstressMain(args []string) int {
 	defer f.Close()
 	for _, t := range res {
 		v := "ok"
-		if !t.ok {
+		if t.inconclusive {
+			v = "SKIP"
+		} else if !t.ok {
 			v = "BAD"
 		}
 		fmt.Fprintf(f, "%s trial=%d ops=%s delivered=%d expected=%d obs=[%s]\n", v, t.id, strings.Join(t.ops, ";"), t.delivered, t.expected, t.states)
